@@ -408,8 +408,8 @@ Definition print_plan (pl : plan) : result src :=
 
 Definition assign_inputs (ps : list hparam) : result src := print_plan (request_plan ps).
 
-(* make_url: Regex \{([_\w]+)\} -> {snake(capture)}; on ASCII \w = [A-Za-z0-9_] *)
-Definition wordc (c : ascii) : bool := is_alnum c || ceqb c "_"%char.
+(* make_url: Regex \{([^{}]+)\} -> {snake(capture)}: a placeholder is whatever stands between two braces *)
+Definition wordc (c : ascii) : bool := negb (ceqb c "{"%char) && negb (ceqb c "}"%char).
 
 Fixpoint take_word (s : str) : str * str :=
   match s with
